@@ -8,7 +8,7 @@ import (
 
 func atoi(s string) int { n, _ := strconv.Atoi(s); return n }
 
-// parseFlow: chain c1,c2,… | split pre post parity | fan post | join post
+// parseFlow: chain c1,c2,… (a g suffix gates the node's action) | split pre post parity | fan post | join post
 func parseFlow(f []string) (flowSpec, error) {
 	bad := fmt.Errorf("bad flow %q", strings.Join(f, " "))
 	if len(f) == 0 {
@@ -17,10 +17,16 @@ func parseFlow(f []string) (flowSpec, error) {
 	switch {
 	case f[0] == "chain" && len(f) == 2:
 		var cs []int
+		var gs []bool
 		for _, x := range strings.Split(f[1], ",") {
-			cs = append(cs, atoi(x))
+			gs = append(gs, strings.HasSuffix(x, "g"))
+			cs = append(cs, atoi(strings.TrimSuffix(x, "g")))
 		}
-		return chainFlow(cs), nil
+		fs := chainFlow(cs)
+		for i, g := range gs {
+			fs.nodes[i+1].gated = g
+		}
+		return fs, nil
 	case f[0] == "split" && len(f) == 4:
 		return splitFlow(f[1] == "1", f[2] == "1", atoi(f[3])), nil
 	case f[0] == "fan" && len(f) == 2:
@@ -31,7 +37,7 @@ func parseFlow(f []string) (flowSpec, error) {
 	return flowSpec{}, bad
 }
 
-// parseOps: w<sess>.<node>=<v> | a<sess>.<node>
+// parseOps: w<sess>.<node>=<v> | a<sess>.<node> | r<sess>.<node>
 func parseOps(f []string) ([]op, error) {
 	var ops []op
 	for _, t := range f {
@@ -40,6 +46,8 @@ func parseOps(f []string) ([]op, error) {
 			o.kind = 'w'
 		} else if _, err := fmt.Sscanf(t, "a%d.%d", &o.sess, &o.node); err == nil {
 			o.kind = 'a'
+		} else if _, err := fmt.Sscanf(t, "r%d.%d", &o.sess, &o.node); err == nil {
+			o.kind = 'r'
 		} else {
 			return nil, fmt.Errorf("bad op %q", t)
 		}
@@ -65,7 +73,7 @@ func parseCorpusLine(l string) (corpusCase, error) {
 	switch f[0] {
 	case "bp":
 		for _, o := range f[1:] {
-			switch o {
+			switch name, _ := splitOp(o); name {
 			case "hook", "pause", "step", "remove", "dclose", "close":
 				cc.sc = append(cc.sc, o)
 			default:
